@@ -12,6 +12,9 @@
 **                               ValueError before it touches the target - failing pushes/sets
 **                               of the poison must leave contents, len and ledger unchanged;
 **                               Array and List only - a Tuple does not own its elements)
+**             prop=C11: same state graph; the point is the iteration oracles that run in every state of every
+**                       mode anyway (forward count == len, backward = reverse of forward then Terminal)
+**                       plus: the i-th iterated item is the object get(i) returns
 **             alias=<bits>  aliasing calls whose argument is an element of the receiver itself
 **                          bit 1 (default): push(x,get(x,k)), append, push_at(x,get(x,k),i),
 **                          set(x,i,get(x,k)) wherever the pinned library handles them;
@@ -101,7 +104,7 @@ static struct seq MA, MB;
 static int kindA, kindB, maxlen, nvals, two, same, probe, picky, alias = 15, poisonconcat;
 static var poisonobj;         /* an Int carrying the value Picky refuses */
 static var valobj_int0;       /* an Int 0 (source element for the poison concat) */
-static int propC05, propC10, propC12;
+static int propC05, propC10, propC11, propC12;
 static var ET;                /* element type of Array/List: Int or Probe */
 static var valobj[8];         /* value carriers 0..nvals (index nvals: a value that is never stored) */
 static var wrongobj;          /* an object of the wrong element type (String) */
@@ -187,11 +190,30 @@ static int64_t elemval(var e) {
 }
 
 /* forward iteration with a horizon; returns the number of items seen (== cap: did not terminate) */
+static var fwdptr[LADMAX + 16];     /* the objects the last forward walk yielded */
 static int walk(var x, int64_t* out, int cap) {
   int c = 0;
   var it = iter_init(x);
-  while (it isnt Terminal and c < cap) { out[c++] = elemval(it); it = iter_next(x, it); }
+  while (it isnt Terminal and c < cap) { if (c < LADMAX + 16) fwdptr[c] = it; out[c++] = elemval(it); it = iter_next(x, it); }
   return c;
+}
+
+/* backward iteration against the forward walk just recorded in fwdptr[0..n): iter_last / iter_prev must
+   yield exactly the same objects in reverse and then Terminal.  The walk stops at the first item that
+   is not the expected one, and such an item is never dereferenced or handed back to the library (it
+   may be a stale pointer).  Returns -1 ok, -2 ended early (*got = items seen), otherwise the position
+   (from the back) of the first wrong item; position n = an item where Terminal was due. */
+static int walk_back(var x, int n, int* got) {
+  int c = 0;
+  var it = iter_last(x);
+  while (c < n) {
+    if (it is Terminal) { *got = c; return -2; }
+    if (it isnt fwdptr[n - 1 - c]) { *got = c; return c; }
+    c++;
+    it = iter_prev(x, it);
+  }
+  *got = c;
+  return it is Terminal ? -1 : n;
 }
 
 /* len + get(i): the API-visible contents; -1 if they cannot be read */
@@ -283,6 +305,25 @@ static int check_seq(var x, int kind, const int* v, int n, const char* who, int 
   if (c != n) { vf_violation(LK(kind, "iter-count"), NULL, "%s: forward iteration yielded %d items, len is %d", who, c, n); return 1; }
   for (int i = 0; i < n; i++) {
     if (itbuf[i] != v[i]) { vf_violation(LK(kind, "iter-value"), NULL, "%s: item %d of the iteration is %" PRId64 ", reference has %d", who, i, itbuf[i], v[i]); return 1; }
+  }
+
+  /* backward iteration = exact reverse of the forward walk, then Terminal (off for the same-object Tuple
+     dimension: Tuple cursors are found by pointer identity, D16) */
+  if (!same && n < LADMAX + 16 && implements_method(x, Iter, iter_last) && implements_method(x, Iter, iter_prev)) {
+    volatile int got = 0;
+    e = VF_CATCH({ int g_ = 0; g_int = walk_back(x, n, &g_); got = g_; });
+    if (e) { vf_violation(LK(kind, "iter-backward-raises"), NULL, "%s: backward iteration raised %s", who, vf_exc_name(e)); return 1; }
+    if (g_int == -2) { vf_violation(LK(kind, "iter-backward-count"), NULL, "%s: backward iteration reached Terminal after %d items, len is %d", who, got, n); return 1; }
+    if (g_int == n) { vf_violation(LK(kind, "iter-backward-does-not-end"), NULL, "%s: backward iteration yields another item after the %d items of the container instead of Terminal", who, n); return 1; }
+    if (g_int >= 0) { vf_violation(LK(kind, "iter-backward-not-reverse"), NULL, "%s: item %d of the backward iteration is not item %d of the forward iteration", who, g_int, n - 1 - g_int); return 1; }
+  }
+  /* C11: the i-th item of the iteration is the object get(i) returns */
+  if (propC11) {
+    for (int i = 0; i < n && i < LADMAX + 16; i++) {
+      e = VF_CATCH(g_var = get(x, $I(i)));
+      if (e) { vf_violation(LK(kind, "get-raises"), NULL, "%s: get(%d) raised %s, len is %d", who, i, vf_exc_name(e), n); return 1; }
+      if (g_var isnt fwdptr[i]) { vf_violation(LK(kind, "iter-item-is-not-get"), NULL, "%s: item %d of the forward iteration is not the object get(%d) returns", who, i, i); return 1; }
+    }
   }
 
   /* get with every valid positive and negative index */
@@ -1515,6 +1556,7 @@ int main(int argc, char** argv) {
   propC05 = strcmp(prop, "C05") == 0;
   propC10 = strcmp(prop, "C10") == 0;
   propC12 = strcmp(prop, "C12") == 0;
+  propC11 = strcmp(prop, "C11") == 0;
   maxlen = (int)vf_param_i("maxlen", 4); if (maxlen > MAXL) maxlen = MAXL; if (maxlen < 2) maxlen = 2;
   nvals = (int)vf_param_i("nvals", 3); if (nvals > 6) nvals = 6; if (nvals < 1) nvals = 1;
   two = (int)vf_param_i("two", 0);
